@@ -994,8 +994,23 @@ def generate(rng, tier, index):
                                               "emit"]), "i": li,
                             "level": 50, "msg": "plain"})
     entry = "load"
+    flaky = None
+    allh2 = [(li, h) for li, lg in enumerate(loggers) for h in lg["handlers"]
+             if not h.get("formatter")]
     if any(h["path"].startswith("missing/") for _li, h in filehs):
         pass
+    elif allh2 and rng.random() < 0.06:
+        # environment fault: the application's formatter class cannot be
+        # constructed at the moment the logger factory is first called (it
+        # could when the configuration was loaded); the call fails between
+        # "handler exists" and "handler finished"; it is called again
+        li, h = rng.choice(allh2)
+        h["formatter"] = "zcsim.logfmt.FlakyFormatter"
+        flaky = li
+        history = [{"op": "call", "i": li}, {"op": "call", "i": li}]
+        if rng.random() < 0.5:
+            history.append({"op": rng.choice(["reopen-all", "emit", "call"]),
+                            "i": li, "level": 50, "msg": "plain"})
     elif not any(lg["kind"] == "eventlog" for lg in loggers) \
             and rng.random() < 0.15:
         entry = "configure-loggers"       # ZConfig.configureLoggers(text)
@@ -1024,7 +1039,8 @@ def generate(rng, tier, index):
             "log_ids_off": ids_off,
             "pre_use": rng.random() < 0.3,
             # the configuration is loaded from inside an asyncio task
-            "in_task": rng.random() < 0.1}
+            "in_task": rng.random() < 0.1,
+            "flaky": flaky}
 
 
 # ---------------------------------------------------------------------------
@@ -1136,6 +1152,8 @@ def execute(plan):
         logging._levelToName.update(saved["levelnames"][0])
         logging._nameToLevel.clear()
         logging._nameToLevel.update(saved["levelnames"][1])
+        from zcsim import logfmt as _lf
+        _lf.FLAKY["left"] = 0
         time.time = saved["time"]
         sys.stdout, sys.stderr = saved["stdout"], saved["stderr"]
         for r in recs:
@@ -1392,6 +1410,12 @@ def _execute(plan, out, scratch, w, clock, recs):
     def has_rec(h):
         return any(r.ref() is h for r in recs)
 
+    flaky_armed = [False]
+    if plan.get("flaky") is not None and lo["ok"]:
+        from zcsim import logfmt
+        logfmt.FLAKY["left"] = 1
+        flaky_armed[0] = True
+
     if len(set(keys)) < len(keys):
         probe("two-sections-one-logger")
 
@@ -1457,7 +1481,15 @@ def _execute(plan, out, scratch, w, clock, recs):
                 logger = f()
         except Exception as e:
             o = ops.failure(e)
-            if env_failure_expected(i) and o["cls"] == "FileNotFoundError":
+            flaky_now = (flaky_armed[0] and o["cls"] == "OSError"
+                         and "zcsim flaky formatter" in o.get("msg", ""))
+            if flaky_now:
+                flaky_armed[0] = False
+                out["fired"]["formatter-construction-fails-at-factory"] = \
+                    out["fired"].get(
+                        "formatter-construction-fails-at-factory", 0) + 1
+            if flaky_now or (env_failure_expected(i)
+                             and o["cls"] == "FileNotFoundError"):
                 # the environment's fault, not the component's; the handlers
                 # built before the failing one are on the logger already
                 probe("factory-failed-on-missing-directory")
@@ -1478,9 +1510,14 @@ def _execute(plan, out, scratch, w, clock, recs):
                 # that failed, half-built handler included) is still alive
                 # here, as it is in an application's "except OSError:" block:
                 # the registry holds the finished handlers and nothing else
-                check_registry(step, "a failed factory call (its exception "
-                                     "still being handled)")
-                probe("registry-checked-inside-except")
+                if not flaky_now:
+                    check_registry(step, "a failed factory call (its "
+                                         "exception still being handled)")
+                    probe("registry-checked-inside-except")
+                # (flaky formatter: the handler whose formatter could not
+                # be built is a finished file handler that lives as long as
+                # the exception does; the registry is compared once the
+                # exception is gone, after this operation)
                 return None
             unknown = any(hm["uses_unknown"] for hm in m["handlers"])
             fvs = [hm["format_verdict"] for hm in m["handlers"]]
